@@ -55,7 +55,7 @@ def _generate_field_validator(
             validator = "validators.integer_validator"
         elif type_def.name == "uinteger":
             validator = "validators.uinteger_validator"
-        elif type_def.name in ["string", "DocumentUri", "URI", "Uri"]:
+        elif type_def.name in ["string", "DocumentUri", "URI", "Uri", "RegExp"]:
             validator = "attrs.validators.instance_of(str)"
         elif type_def.name == "boolean":
             validator = "attrs.validators.instance_of(bool)"
@@ -346,7 +346,7 @@ class TypesCodeGenerator:
                 return "bool"
             elif type_def.name in ["integer", "uinteger"]:
                 return "int"
-            elif type_def.name in ["string", "DocumentUri", "URI"]:
+            elif type_def.name in ["string", "DocumentUri", "URI", "RegExp"]:
                 return "str"
             elif type_def.name == "null":
                 return "None"
